@@ -99,11 +99,11 @@ const PanicBase = uint64(1) << 36
 // WrapBase + 2*k + n: C09's long-run operation on the k-th definition with required fields (see execWrap).
 const WrapBase = uint64(1) << 40
 
-// DeepBase + 4*k + d: an encode of a chain of 70 / 1030 / 1500 / 2100 nested structs (d) of the k-th definition that
+// DeepBase + 4*k + d: an encode of a chain of 70 / 520 / 1030 / 1500 nested structs (d) of the k-th definition that
 // contains itself: the extreme of the value space in the one dimension a size budget does not reach.
 const DeepBase = uint64(1) << 44
 
-var deepLevels = []int{70, 1030, 1500, 2100}
+var deepLevels = []int{70, 520, 1030, 1500}
 
 // SysRejected is the first id of the systematic part of C13's bank.
 const SysRejected = uint64(1) << 32
